@@ -6,22 +6,22 @@ ROOT = os.path.dirname(os.path.dirname(os.path.abspath(__file__)))
 ENG = "tla-trace"
 T = "TLC: "
 CHECKS = {
- "C01": ("model_checking", T+"exhaustive MC of DeflateParams (level clamp) + trace validation of every one-shot call against the RFC 1951/1950 acceptor spec", "3/C01"),
+ "C01": ("model_checking", T+"exhaustive MC of DeflateParams (level clamp), DeflateHelpers (compress_to_vec loop: no panic, whole stream, termination) and DeflateLZ + trace validation of every one-shot call against the RFC 1951/1950 acceptor spec", "3/C01"),
  "C02": ("model_checking", T+"trace validation of every compress()/compress_to_output() call against DeflateContract, of the match finder's state (hook) against the DeflateLZ rules, and of the concatenated output against the acceptor; MC of DeflateParams, DeflateCore, DeflateLZ", "3/C02"),
- "C03": ("model_checking", T+"trace validation of all decoder entry points against InflateContract with the acceptor's verdict on each stream", "3/C03"),
+ "C03": ("model_checking", T+"MC of generator/acceptor agreement (DeflateGen vs Rfc1951), TLC-generated streams (incl. wide code-length sets, biased simulations) and crafted wrap-around streams replayed through all decoder entry points; trace validation against InflateContract with the acceptor's verdict on each stream", "3/C03"),
  "C04": ("model_checking", T+"acceptor (Produce mode) judges mutated streams, InflateContract forbids Done on rejected/starved streams and rejection of proper prefixes", "3/C04"),
  "C05": ("model_checking", T+"trace validation of random call histories (all flag sets, geometries, positions) against the total-function rules of InflateContract", "3/C05"),
  "C06": ("model_checking", T+"acceptor's exact encoded length vs summed consumed counts at Done, trailing bytes, all entry points", "3/C06"),
- "C07": ("model_checking", T+"schedule-equivalence rules of the trace spec over every cut point / budget schedule, valid and invalid streams", "3/C07"),
+ "C07": ("model_checking", T+"MC of InflateCore and InflateStates; schedule-equivalence rules of the trace spec over every cut point / budget schedule (incl. a caller that never announces more input), valid and invalid (mutated and grammar-generated) streams", "3/C07"),
  "C08": ("model_checking", T+"geometry sweep validated against the region/status rules of InflateContract; vector-helper limit rules", "3/C08"),
  "C09": ("model_checking", T+"exhaustive MC of the header function over all configurations + acceptor-validated header/trailer of real compressor output", "3/C09"),
  "C10": ("model_checking", T+"exhaustive MC of routing/capability per configuration + acceptor token statistics of real output judged against DeflateParams requirements; MC of DeflateHuff (code construction, length limiter, code-length packer) whose rules TLC evaluates on the real optimize_table / start_dynamic_block for every small count vector (hook)", "3/C10"),
  "C11": ("model_checking", T+"exhaustive MC of declared window vs route distance capability + acceptor-measured maximum distance vs declared window", "3/C11"),
- "C12": ("model_checking", T+"acceptor in prefix mode at every qualifying flush return; full-flush cut tracking in the acceptor", "3/C12"),
+ "C12": ("model_checking", T+"MC of DeflateCore/DeflateLZ (flush points, full flush cuts history); acceptor in prefix mode at every qualifying flush return of compress() and deflate(); full-flush cut tracking in the acceptor; scripted call sequences around block cuts and Full flushes", "3/C12"),
  "C13": ("model_checking", T+"trace validation of random and canonical inflate() call sequences against the InflateStream contract rules", "3/C13"),
  "C14": ("model_checking", T+"trace validation of random deflate() call sequences against the DeflateStream contract rules; output parsed by the acceptor", "3/C14"),
  "C15": ("model_checking", T+"Bound(n) transcribed in spec/CApi.tla compared with the C functions; one-call compression into bound-sized guard-paged destinations validated by the trace spec", "3/C15"),
- "C16": ("model_checking", T+"every checksum call recomputed by TLC from the definitions in spec/Checksums.tla (all splits; scalar and simd builds)", "3/C16"),
+ "C16": ("model_checking", T+"every checksum call recomputed by TLC from the definitions in spec/Checksums.tla (all splits, modulus edges; scalar and simd builds); running checksums of compressor, decoder (incl. block-boundary stops) and C stream field checked against the data in the traces", "3/C16"),
  "C17": ("model_checking", T+"trace validation of C calls against the CApi accounting/equality rules with a Rust twin; guard pages observe out-of-range access", "3/C17"),
  "C18": ("model_checking", T+"pair rules of the trace spec: reset object vs fresh object vs second fresh object under identical call sequences", "3/C18"),
  "C19": ("model_checking", T+"pair rules for clone/serde/boundary forks; boundary records checked against the acceptor's block list", "3/C19"),
